@@ -1,52 +1,54 @@
 #!/bin/bash
 # eval_seed_wt.sh <worktree-dir> <property-id> <seed-name>
-# Like eval_seed.sh, but everything happens inside the sub-agent's scratch worktree: /repo is not
-# touched (the checks are run with -repo <worktree>), so several seeds can be evaluated in parallel
-# and while other tools use /repo.  The worktree must be based on /repo's HEAD.
+# Like eval_seed.sh, but /repo is not touched: the seeded change (git diff of the sub-agent's
+# worktree) and its demonstration are applied to a scratch copy of /repo's current HEAD (outside
+# /repo and /verif, removed afterwards), where build, suite, demo with/without the change and every
+# registered quick check (-repo <copy>) are run.  Several seeds can be evaluated in parallel.
 set -u
 WT=$1; PROP=$2; NAME=$3
 export GOFLAGS=-mod=mod GOPROXY=off GOSUMDB=off GOTOOLCHAIN=local GOWORK=off
 OUT=/verif/seeded/$NAME
 mkdir -p "$OUT"
-cd "$WT" || exit 2
-BASE=$(git rev-parse HEAD); REPOHEAD=$(git -C /repo rev-parse HEAD)
-[ "$BASE" = "$REPOHEAD" ] || echo "WARNING: worktree base $BASE differs from /repo HEAD $REPOHEAD"
-DEMO=$(git status --porcelain | awk '/zz_seed_demo_test.go/ {print $2}' | head -1)
+DEMO=$(cd "$WT" && git status --porcelain | awk '/zz_seed_demo_test.go/ {print $2}' | head -1)
 [ -z "$DEMO" ] && echo "no demo test found"
-git diff > "$OUT/patch.diff"
-[ -n "$DEMO" ] && cp "$DEMO" "$OUT/demo_test.go.txt"
-[ -f SEED.md ] && cp SEED.md "$OUT/SEED.md"
-echo "== patch: $(grep -c '^[+-][^+-]' "$OUT/patch.diff") changed lines in $(git diff --name-only | tr '\n' ' ')"
+(cd "$WT" && git diff) > "$OUT/patch.diff"
+[ -n "$DEMO" ] && cp "$WT/$DEMO" "$OUT/demo_test.go.txt"
+[ -f "$WT/SEED.md" ] && cp "$WT/SEED.md" "$OUT/SEED.md"
+SCR=$(mktemp -d /tmp/seedeval.XXXXXX)
+mkdir -p $SCR/repo $SCR/verif
+rsync -a --exclude .git /repo/ $SCR/repo/
+cp /verif/known_findings.json $SCR/verif/
+cd $SCR/repo
+if ! patch -p1 -s --no-backup-if-mismatch < "$OUT/patch.diff" >/dev/null 2>&1; then echo "$NAME: patch does not apply to /repo HEAD"; rm -rf $SCR; exit 2; fi
+echo "== $NAME patch: $(grep -c '^[+-][^+-]' "$OUT/patch.diff") changed lines in $(cd "$WT" && git diff --name-only | tr '\n' ' ')"
 go build ./... 2>&1 | grep -v '^WARNING' | tail -3
-PKG=./$(dirname "${DEMO:-martian/core/x}")
-HOLD=$(mktemp -u /tmp/$NAME.demo.XXXX)
-[ -n "$DEMO" ] && mv "$DEMO" $HOLD
 SUITE=$(go test -vet=off -count=1 ./... 2>&1 | grep -v '^WARNING' | grep -v 'no test files' | grep -cv '^ok')
-[ -n "$DEMO" ] && mv $HOLD "$DEMO"
-go test -vet=off -count=1 -run 'Seed|seed|Demo|demo' "$PKG" 2>&1 | grep -v '^WARNING' | grep -- '--- FAIL\|^FAIL\|^ok' | head -4
+PKG=./$(dirname "${DEMO:-martian/core/x}")
+[ -n "$DEMO" ] && cp "$OUT/demo_test.go.txt" "$DEMO"
+go test -vet=off -count=1 -run 'Seed|seed|Demo|demo' "$PKG" 2>&1 | grep -v '^WARNING' | grep -- '--- FAIL\|^FAIL\|^ok' | head -3
 go test -vet=off -count=1 -run 'Seed|seed|Demo|demo' "$PKG" >/dev/null 2>&1; WITH=$?
-git apply -R "$OUT/patch.diff"; go test -vet=off -count=1 -run 'Seed|seed|Demo|demo' "$PKG" >/dev/null 2>&1; WITHOUT=$?; git apply "$OUT/patch.diff"
+patch -p1 -R -s --no-backup-if-mismatch < "$OUT/patch.diff" >/dev/null 2>&1
+go test -vet=off -count=1 -run 'Seed|seed|Demo|demo' "$PKG" >/dev/null 2>&1; WITHOUT=$?
+patch -p1 -s --no-backup-if-mismatch < "$OUT/patch.diff" >/dev/null 2>&1
+[ -n "$DEMO" ] && rm -f "$DEMO"
 echo "suite_nonok_lines=$SUITE demo_with_change_exit=$WITH demo_without_change_exit=$WITHOUT"
-V=$(mktemp -d /tmp/seedv.XXXX); cp /verif/known_findings.json $V/
 RES=""; DETAIL=""
-[ -n "$DEMO" ] && mv "$DEMO" $HOLD
 for P in $(/verif/bin/mrocheck -list); do
-  O=$(GOMAXPROCS=4 /verif/bin/mrocheck -repo "$WT" -property $P -verif $V 2>&1 | grep -v '^WARNING')
+  O=$(GOMAXPROCS=4 /verif/bin/mrocheck -repo $SCR/repo -property $P -verif $SCR/verif 2>&1 | grep -v '^WARNING')
   if echo "$O" | grep -q '^VIOLATION\|^UNDECIDED'; then
     RES="$RES $P"
     DETAIL="$DETAIL$(echo "$O" | grep '^VIOLATION\|^UNDECIDED' | grep -v '^VIOLATION property' | cut -d' ' -f2 | tr '\n' ' ')"
     echo "--- $P fires:"; echo "$O" | grep '^VIOLATION\|^UNDECIDED' | grep -v '^VIOLATION property' | cut -c1-260 | head -4
   fi
 done
-[ -n "$DEMO" ] && mv $HOLD "$DEMO"
-rm -rf $V
-echo "CHECKS_FIRED:${RES:- none}   (target property $PROP)"
+rm -rf $SCR
+echo "CHECKS_FIRED($NAME):${RES:- none}   (target property $PROP)"
 python3 - "$OUT" "$PROP" "$NAME" "$SUITE" "$WITH" "$WITHOUT" "$RES" "$DETAIL" <<'PY'
 import json,sys
 out,prop,name,suite,w,wo,res,detail=sys.argv[1:9]
 json.dump({"seed":name,"breaks_property":prop,
  "confirmed":{"compiles":True,"existing_suite_nonok_lines":int(suite),"demo_fails_with_change":w!="0","demo_passes_without_change":wo=="0"},
  "needs_to_manifest":"see SEED.md",
- "what_was_run":"tools/eval_seed_wt.sh in the sub-agent's worktree: go build ./..., go test -vet=off -count=1 ./... (demo excluded), demo with and without the change, then every registered quick check with -repo <worktree>",
+ "what_was_run":"tools/eval_seed_wt.sh: the change and its demo applied to a scratch copy of /repo HEAD; go build ./..., go test -vet=off -count=1 ./... (demo excluded), demo with and without the change, then every registered quick check with -repo <copy>",
  "checks_that_fire":res.split(),"rules_that_fire":detail.split()},open(out+"/meta.json","w"),indent=1)
 PY
